@@ -97,7 +97,7 @@ CHECKS = {
     },
     "C07": {
         "test": "TestC07", "level": "exploration", "crashy": True,
-        "quick": {"shards": 8, "checks": 400, "timeout": 900},
+        "quick": {"shards": 8, "checks": 700, "timeout": 900},
         "thorough": {"shards": 16, "checks": 3000, "timeout": 3400},
         "rule": "valid bundles from the program generator (shadowing, data=all forwarding, content params, header or soydoc params, $ij) and, for "
                 "each, every single-rule violation at every applicable site (use before definition, self-reference in a let's own definition, "
@@ -112,7 +112,7 @@ CHECKS = {
     },
     "C08": {
         "test": "TestC08", "level": "exploration", "crashy": True,
-        "quick": {"shards": 8, "checks": 600, "timeout": 900},
+        "quick": {"shards": 8, "checks": 1500, "timeout": 900},
         "thorough": {"shards": 16, "checks": 4000, "timeout": 3400},
         "rule": "histories of 4-25 (thorough 60) operations over one compiled bundle: renders of any template with its own data or with data of "
                 "arbitrary shape (failing renders), renders with a message bundle, JavaScript generation with and without the bundle, and "
@@ -139,7 +139,7 @@ CHECKS = {
     },
     "C10": {
         "test": "TestC10", "level": "exploration",
-        "quick": {"shards": 8, "checks": 1000, "timeout": 900},
+        "quick": {"shards": 8, "checks": 2000, "timeout": 900},
         "thorough": {"shards": 16, "checks": 6000, "timeout": 3400},
         "rule": "messages whose placeholders collide on base names by construction ($x, $x_1, $x_2, $a.x, $b.x, the same variable with different "
                 "directives, camel-case and digit names, arbitrary expressions incl. pairs differing only in parentheses, 17 HTML tags of every naming "
@@ -154,7 +154,7 @@ CHECKS = {
     },
     "C11": {
         "test": "TestC11", "level": "exploration", "needs_node": True, "needs_extractor": True,
-        "quick": {"shards": 8, "checks": 300, "timeout": 900},
+        "quick": {"shards": 8, "checks": 700, "timeout": 900},
         "thorough": {"shards": 16, "checks": 2500, "timeout": 3400},
         "rule": "bundles of 1-3 messages from the colliding-placeholder generator (plurals mostly [case 1, default], some not representable in PO) x "
                 "catalogue in {identity, reversing, rotating, partial} x locale in {en (2 forms), ja (1), cs (3)} x plural subject in {0,1,2,3,5,11,21}; "
@@ -167,7 +167,7 @@ CHECKS = {
     },
     "C12": {
         "test": "TestC12", "level": "fault_enumeration",
-        "quick": {"shards": 8, "checks": 800, "timeout": 900},
+        "quick": {"shards": 8, "checks": 2500, "timeout": 900},
         "thorough": {"shards": 16, "checks": 4000, "timeout": 3400},
         "rule": "for each generated program (whole command grammar, data satisfying the params) the fault-free run's W write calls and B bytes are "
                 "enumerated completely: a failing writer at every call index (dead and transient variants) and a short writer at every byte offset "
@@ -193,7 +193,7 @@ CHECKS = {
     },
     "C14": {
         "test": "TestC14", "level": "translation_validation", "needs_node": True,
-        "quick": {"shards": 8, "checks": 800, "timeout": 900},
+        "quick": {"shards": 8, "checks": 1400, "timeout": 900},
         "thorough": {"shards": 16, "checks": 6000, "timeout": 3400},
         "rule": "closed bundles (namespaces of 1-4 segments, one or two files) that print 1-6 literal strings - single ASCII bytes, pieces from a hostile "
                 "alphabet (quotes, backslashes, line terminators U+2028/2029, </script>, ]]>, comment markers, NUL and other controls, BOM, astral and "
@@ -250,7 +250,7 @@ CHECKS = {
     },
     "C18": {
         "test": "TestC18", "level": "exploration", "crashy": True,
-        "quick": {"shards": 6, "checks": 500, "timeout": 900, "shrinktime": "30s"},
+        "quick": {"shards": 6, "checks": 900, "timeout": 900, "shrinktime": "30s"},
         "thorough": {"shards": 16, "checks": 3000, "timeout": 3400, "shrinktime": "60s"},
         "rule": "sequences of 1-30 (thorough 80) parses per case drawn from the C05 families plus complete expressions followed by trailing tokens, "
                 "through parse.SoyFile, parse.Expr and soy.ParseGlobals; non-trivial = the sequence has trailing tokens after a complete "
@@ -262,7 +262,7 @@ CHECKS = {
     },
     "C19": {
         "test": "TestC19", "level": "exploration",
-        "quick": {"shards": 8, "checks": 600, "timeout": 900},
+        "quick": {"shards": 8, "checks": 1500, "timeout": 900},
         "thorough": {"shards": 16, "checks": 4000, "timeout": 3400},
         "rule": "valid files built one construct per line (9 block kinds nested up to depth 2, 16 simple constructs, optional header lines, LF or CRLF, 5 file "
                 "names); parse side: one of 9 fault kinds inserted before EVERY body line in turn; render side: a failing print, or a call chain of "
